@@ -446,7 +446,11 @@ def fix_reimported_names(source: str) -> str:
 
             if trace_result := trace_origin(name, module_source, __all__=True):
                 *_, module_import_node = trace_result
-                if isinstance(module_import_node, ast.ImportFrom):
+                if isinstance(module_import_node, ast.ImportFrom) and module_import_node.level > 0:
+                    # A relative import only means something inside its own package
+                    node_names.append(alias)
+
+                elif isinstance(module_import_node, ast.ImportFrom):
                     # Remove this alias from node.names
                     # Add this alias to things that should be imported from module_import_node.module
                     if (
